@@ -143,7 +143,8 @@ def offsetForTime (ps : PartState) (time : Int) : Int :=
 
 def handleMetadata (c : Cluster) (names : List Bytes) : RespBody :=
   let ts := if names.isEmpty then c.topics.map (·.name) else names
-  .metadata c.brokers (reorder c.order (ts.map fun n =>
+  -- (the broker list is reordered like every other list: a client must go by the node ids, not by positions)
+  .metadata (reorder c.order c.brokers) (reorder c.order (ts.map fun n =>
     match c.topic? n with
     | some t => ⟨0, n, reorder c.order ((List.range t.parts.length).zip t.parts |>.map fun (i, p) =>
         ⟨if p.leader < 0 then 5 else 0, i, p.leader, [], []⟩)⟩
